@@ -87,7 +87,7 @@ func gen(t *rapid.T) Case {
 }
 
 type stats struct {
-	images, torn, fallback, deep, writerOpens, continuations, openFailedAllowed, staleTail, windowParked int
+	images, torn, fallback, deep, writerOpens, continuations, openFailedAllowed, staleTail, windowParked, handlePairings int
 	nt                                                                                  []string
 }
 
@@ -168,6 +168,13 @@ func runPhase(c Case, d int, dir string, prior []vlib.BatchSpec, hadSnapshot boo
 	if f := rr.Finish(true); f != nil {
 		return f
 	}
+	// a writer that recovered from a crash image (torn snapshots included) and was closed has
+	// given back every item it loaded: an item still held would refuse a later Persist or Remove
+	// of its name
+	if op, cl, dbl := rr.Dir.OpenHandles(); op != cl || dbl != 0 {
+		return vlib.Failf("handle-pairing-after-close", "depth %d: the writer loaded %d items through the directory, %d were closed once, %d more than once after Close", d, op, cl, dbl)
+	}
+	st.handlePairings++
 	rec.HadSnapshot = hadSnapshot
 
 	opt := vlib.ImageOpts{}
@@ -303,6 +310,7 @@ func TestC03Recovery(t *testing.T) {
 		ev.AddExtra("fallback_images", st.fallback)
 		ev.AddExtra("images_at_depth_2_or_more", st.deep)
 		ev.AddExtra("recovering_writer_opens", st.writerOpens)
+		ev.AddExtra("writers_closed_with_every_loaded_item_released", st.handlePairings)
 		ev.AddExtra("continuations", st.continuations)
 		ev.AddExtra("open_failed_before_first_snapshot", st.openFailedAllowed)
 		if len(c.Phases[0]) <= 3 {
